@@ -54,7 +54,7 @@ def handle : List String → Option String
       | .ok none => "ok"
       | .ok (some (a, b)) => s!"ok {a}-{b}")
   | ["pdecode", p] => do pure (hexOfBytes (percentDecode (← bytesOfHex p)))
-  -- rel <host 0-3> <method> <path> : what handle_cache answers on the fixture tree
+  -- rel <host 0-4> <method> <path> : what handle_cache answers on the fixture tree
   | ["rel", h, m, p, _hdrs] => handle ["rel", h, m, p]
   | ["rel", h, m, p] => do
     let path ← bytesOfHex p
@@ -63,6 +63,8 @@ def handle : List String → Option String
     let pub := child site (if h = "2" then "pubcustom" else "public")
     pure (
       if !pathOk path then "400 -" else
+      -- host 4: `Options::disable_fs` — no file path is formed; the check comes first all the same
+      if h = "4" then "404 -" else
       match fsRel (uriRedirect cfg path) with
       | none => "404 -"
       | some rel =>
